@@ -77,7 +77,13 @@ func (l *LookupOptions) String() string {
 		b.WriteString("nil")
 	}
 	b.WriteString(fmt.Sprintf(", LatestAnchor=%v", l.LatestAnchor))
-	b.WriteString(fmt.Sprintf(", FilterOptions=%s>", l.FilterOptions))
+	b.WriteString(fmt.Sprintf(", FilterOptions=%s", l.FilterOptions))
+	if l.Offset != 0 {
+		// Pages of the same lookup are different lookups (and different UUIDs).
+		b.WriteString(", offset=")
+		b.WriteString(strconv.Itoa(l.Offset))
+	}
+	b.WriteString(">")
 	return b.String()
 }
 
